@@ -105,6 +105,68 @@ def build_fi(bt, spec):
     return FI.build_program(bt, sp)
 
 
+def gen_blotter_spec(rng):
+    """a program driven by a supplied (Date, Security) frame - a blotter replayed by ReplayTransactions or requests answered by
+    SimulateRFQTransactions - whose rows are dated between the data's dates too (executed on the next date) and come in any order:
+    chronological, security by security, reversed, shuffled"""
+    spec = R.gen_run_spec(rng, nested=False, T=rng.randint(8, 16))
+    tk = spec["tickers"]
+    for t in tk:
+        spec["prices"][t] = [p if p is not None else 10.0 for p in spec["prices"][t]]
+    ds = [pd.Timestamp(d) for d in spec["dates"]]
+    rows = []
+    for i, d in enumerate(ds):
+        for t in tk:
+            if rng.random() < 0.35:
+                when = d
+                if i > 0 and rng.random() < 0.25:       # dated between two data dates: belongs to the step that ends at d
+                    when = ds[i - 1] + (d - ds[i - 1]) / 2
+                px = spec["prices"][t][i]
+                rows.append([str(when), t, float(rng.choice([1, 2, 5, 10, -1, -3, 20])), float(px * rng.choice([1.0, 1.0, 0.99, 1.02]))])
+    order = rng.choice(["chronological", "by-security", "reversed", "shuffled"])
+    if order == "by-security":
+        rows.sort(key=lambda r: (r[1], r[0]))
+    elif order == "reversed":
+        rows.reverse()
+    elif order == "shuffled":
+        rng.shuffle(rows)
+    spec["blotter"] = {"rows": rows, "order": order, "algo": rng.choice(["replay", "replay", "rfq"])}
+    spec["kind"] = "blotter"
+    return spec
+
+
+def build_blotter(bt, spec):
+    sp = copy.deepcopy(spec)
+    rows = sp["blotter"]["rows"]
+    pt = sp.get("perturb")
+    if pt:
+        import random as _r
+        r = _r.Random(pt.get("seed", 0))
+        cut = pd.Timestamp(pt["cut"])
+        out = []
+        for when, t, q, px in rows:
+            if pd.Timestamp(when) > cut:
+                if pt["mode"] == "drop":
+                    continue
+                q, px = q * r.choice([-2.0, 3.0, 0.5, 7.0]), px * r.uniform(0.5, 2.0)
+            out.append([when, t, q, px])
+        rows = out
+    idx = pd.MultiIndex.from_tuples([(pd.Timestamp(w), t) for w, t, _, _ in rows], names=["Date", "Security"]) if rows else \
+        pd.MultiIndex.from_arrays([pd.DatetimeIndex([]), []], names=["Date", "Security"])
+    frame = pd.DataFrame({"quantity": [r_[2] for r_ in rows], "price": [r_[3] for r_ in rows]}, index=idx, dtype=float)
+    data = R.frame(sp["prices"], sp["dates"])
+    if sp["blotter"]["algo"] == "replay":
+        algo = bt.algos.ReplayTransactions("blotter")
+    else:
+        def model(rfqs, target):       # every request is filled, a touch worse than asked
+            out = rfqs.copy()
+            out["price"] = out["price"] * 1.001
+            return out
+        algo = bt.algos.SimulateRFQTransactions("blotter", model)
+    s = bt.Strategy("top", algos=[algo], children=[bt.Security(t) for t in sp["tickers"]])
+    return bt.Backtest(s, data, initial_capital=sp["capital"], integer_positions=False, additional_data={"blotter": frame, "bidoffer": {}}, progress_bar=False)
+
+
 def gen_plan(rng, dates):
     i = rng.randint(0, len(dates) - 2)
     return {"cut": dates[i], "mode": rng.choice(["nan", "x10", "flip", "random", "random", "drop"]), "seed": rng.randint(0, 10 ** 6),
@@ -154,6 +216,15 @@ def run(ctx, bt, scale=1):
         ctx.evaluations += 1
         ctx.classes.add(("frames", kind, spec["perturb_plan"]["mode"], spec["perturb_plan"]["pos"]))
         run_pair(ctx, bt, spec, build_program)
+    # programs driven by a blotter / a request list (rows in any order, also dated between data dates)
+    for _ in range(ctx.scale(40, 600) * scale):
+        spec = gen_blotter_spec(ctx.rng)
+        spec["perturb_plan"] = gen_plan(ctx.rng, spec["dates"])
+        spec["perturb_plan"]["mode"] = "drop" if spec["perturb_plan"]["mode"] in ("drop", "nan") else "random"
+        ctx.evaluations += 1
+        ctx.count("blotter-rows-order:" + spec["blotter"]["order"])
+        ctx.classes.add(("blotter", spec["blotter"]["algo"], spec["blotter"]["order"], spec["perturb_plan"]["mode"], spec["perturb_plan"]["pos"]))
+        run_pair(ctx, bt, spec, build_blotter)
     # risk programs: UpdateRisk + HedgeRisks over unit-risk tables that change on every date (FixedIncomeStrategy, hedge instruments
     # with multipliers, lazily created instruments); the tables - and nothing else - are perturbed after the cut
     from .. import risk_lib as RL
@@ -187,4 +258,4 @@ def replay(bt, data, ctx):
         run_risk_pair(ctx, bt, case["risk_spec"], case["cut_i"])
         return
     spec = case["spec"]
-    run_pair(ctx, bt, spec, build_fi if case.get("kind") == "fi" else build_program)
+    run_pair(ctx, bt, spec, build_fi if case.get("kind") == "fi" else build_blotter if case.get("kind") == "blotter" else build_program)
